@@ -194,7 +194,7 @@ func offString(c *kafka.Conn) string {
 }
 
 // oneFetch runs the real Conn.ReadBatch / Batch.ReadMessage / Batch.Close on one scripted
-// fetch response: "<msgs>;<final error class>;<conn.Offset() after Close>".
+// fetch response: "<msgs>;<final error class>;<conn.Offset() after Close>;<Close result class>;<conn closed 0/1>".
 // oneFetch runs oneFetchUnguarded under a watchdog: a ReadBatch / ReadMessage / Close that does
 // not return within 5 s is the result class "HANG" (the scripted connection never blocks, so this
 // is a loop without progress in the library); after three of them the run stops, since every
@@ -253,7 +253,7 @@ func oneFetchUnguarded(ver int16, off, hwm int64, declared int, set []byte, late
 		ms = append(ms, msgString(m))
 	}
 	bo := batch.Offset()
-	batch.Close()
+	cerr := batch.Close()
 	co := offString(conn)
 	if co != kvfmt.I(bo) && co != "start" && co != "end" {
 		return "BATCHOFF!=CONNOFF", 0
@@ -267,7 +267,8 @@ func oneFetchUnguarded(ver int16, off, hwm int64, declared int, set []byte, late
 	if len(ms) > 0 {
 		s = strings.Join(ms, ",")
 	}
-	return s + ";" + errClass(err) + ";" + co, reqOff
+	// <msgs>;<error of the last ReadMessage>;<Conn.Offset after Close>;<Batch.Close result>;<did the library close the connection>
+	return s + ";" + errClass(err) + ";" + co + ";" + errClass(cerr) + ";" + kvfmt.Bool(sc.closed), reqOff
 }
 
 func layoutFeats(l fetchfake.Layout) []string {
@@ -390,6 +391,77 @@ func runL1(r *rand.Rand, n int) {
 		// high watermark equal to the fetch offset: the client does not look at the bytes
 		if r.Intn(4) == 0 {
 			emitL1(ver, off, off, len(all), all, false, enc.Blobs, append(append([]string{}, feats...), "hwm=off"), logArg)
+		}
+	}
+}
+
+// runL1Sweep: small COMPRESSED v2 batches of every codec, the payload in one block and in two
+// (the codec's writer flushed after half of the records: two xerial blocks, two lz4 blocks, a
+// gzip / zstd flush point), as the only batch of the response, as the last one after an
+// uncompressed batch and as a middle one; the connection is cut at EVERY physical byte position
+// of the batch (61 header bytes and the compressed payload) while the announced message set size
+// is the whole response.
+func runL1Sweep(r *rand.Rand) {
+	vers := []int16{2, 5, 10}
+	val := func(i int) []byte { return []byte(fmt.Sprintf("value-%02d-%s", i, strings.Repeat(string(rune('a'+i%26)), 3+i%5))) }
+	for codec := 1; codec <= 4; codec++ {
+		for _, split := range []int{0, 3} {
+			for _, place := range []string{"only", "last", "middle"} {
+				base := int64(100 + r.Intn(50))
+				ts := int64(1600000000000)
+				var l fetchfake.Layout
+				next := base
+				mk := func(c, n int) fetchfake.PBatch {
+					b := fetchfake.PBatch{Fmt: 2, Codec: c, Base: next, Lod: int64(n - 1), Ts: ts}
+					for i := 0; i < n; i++ {
+						b.Recs = append(b.Recs, fetchfake.Record{Off: next + int64(i), Ts: ts + int64(i), Key: []byte{byte(i)}, Val: val(int(next) + i)})
+					}
+					next += int64(n)
+					return b
+				}
+				if place != "only" {
+					l = append(l, mk(0, 2))
+				}
+				ti := len(l)
+				l = append(l, mk(codec, 6))
+				if place == "middle" {
+					l = append(l, mk(0, 2))
+				}
+				offs := []int64{l[0].Base}
+				if place == "only" {
+					offs = append(offs, l[0].Base+2) // the fetch offset inside the compressed batch
+				}
+				for _, off := range offs {
+					enc := fetchfake.Encoder{SplitRec: split}
+					var all []byte
+					start, end := 0, 0
+					for i, b := range l {
+						if i == ti {
+							start = len(all)
+						}
+						all = append(all, enc.Batch(b)...)
+						if i == ti {
+							end = len(all)
+						}
+					}
+					ver := vers[r.Intn(3)]
+					hwm := next
+					feats := append(layoutFeats(l), fmt.Sprintf("fv=%d", ver), "physcut", "sweep", "sweep-"+place)
+					if split > 0 {
+						feats = append(feats, "two-blocks")
+					}
+					logArg := " log=" + fetchfake.RecordsString(l.Records())
+					for k := start; k <= end && k < len(all); k++ {
+						f := append([]string{}, feats...)
+						if k < start+61 {
+							f = append(f, "cut-in-batch-header")
+						} else {
+							f = append(f, "cut-in-payload")
+						}
+						emitL1(ver, off, hwm, len(all), all[:k], false, enc.Blobs, f, logArg)
+					}
+				}
+			}
 		}
 	}
 }
